@@ -9,7 +9,7 @@ MANIFEST = {
     "note": "Trusted: Lean kernel; model (differential tie); socket semantics (a recv returns 1..n bytes or 0 at EOF) and asyncio's readexactly contract are assumptions; a silent peer on a socket without timeout (blocking forever) cannot be exhibited by the model — partial in that respect",
     "technique": "Lean 4 proof (induction over chunk lists = schedules) + scripted-transport correspondence",
 }
-THEOREMS_TODO = ["DpapiNg.C14.readN_ok", "DpapiNg.C14.readN_eof", "DpapiNg.C14.reassembly", "DpapiNg.C14.eof_is_error"]
+THEOREMS = ["DpapiNg.C14.readN_ok", "DpapiNg.C14.readN_eof", "DpapiNg.C14.readNCalls_le", "DpapiNg.C14.readN_calls_rest", "DpapiNg.C14.reassembly", "DpapiNg.C14.eof_is_error"]
 RULE = ("replies: bind_ack, alter_context_resp, response, fault of several sizes; partitions into 1..3 chunks at every byte offset (quick: all 2-chunk splits + a stride of 3-chunk ones), "
         "random finer partitions, EOF at every byte offset including 0; sync over a scripted socket, async over a real StreamReader; distinct by op line")
 ASSUMPTIONS = ["recv returns 1..n bytes, or 0 bytes at EOF", "readexactly raises IncompleteReadError at EOF"]
@@ -157,4 +157,3 @@ def replay(ctx, payload):
     c2 = type(ctx)(ctx.prop, "quick", ctx.seed)
     run(c2)
     return not c2.violations
-THEOREMS = []
